@@ -247,8 +247,16 @@ def table_layout(context, table, bottom_space, skip_stack, containing_block,
                 row.baseline = max(cell.baseline for cell in baseline_cells)
                 for cell in baseline_cells:
                     extra = row.baseline - cell.baseline
-                    if cell.baseline != row.baseline and extra:
-                        add_top_padding(cell, extra)
+                    if cell.baseline == row.baseline or not extra:
+                        continue
+                    # Don't shift the cells of a row split between pages
+                    # below the page bottom, their content has been laid out
+                    # to fill the page
+                    if (resume_at or skip_stack) and context.overflows_page(
+                            bottom_space,
+                            cell.position_y + cell.border_height() + extra):
+                        continue
+                    add_top_padding(cell, extra)
 
             # Set row height.
             for cell in row.children:
